@@ -83,6 +83,15 @@ Theorem C17_yaml_text_determines_value : forall a b, gi_yaml a = gi_yaml b -> a 
 Proof. exact yaml_injective. Qed.
 Print Assumptions C17_yaml_text_determines_value.
 
+(** Whatever the reader returns for a written text is the value that was written (no hypothesis on the value). *)
+Theorem C17_yaml_read_back_is_the_value : forall i j,
+  gi_parse (gi_yaml i) = Some j -> j = i /\ gi_iter j = gi_iter i /\ gi_iter_rev j = gi_iter_rev i.
+Proof.
+  intros i j H. apply yaml_parse_sound in H. destruct H as [H _].
+  apply yaml_injective in H. subst j. repeat split.
+Qed.
+Print Assumptions C17_yaml_read_back_is_the_value.
+
 Example C17_yaml_example :
   gi_yaml (mkGI [7; 8; 9] [(0, 2, Logic); (1, 2, Contains); (0, 1, Data)]) =
   [YGraph; YNodes false; YNode 7; YNode 8; YNode 9; YHoles; YProp; YEdges false;
